@@ -216,6 +216,9 @@ def run(ctx):
     # the hand-written string enums with a separate parser (JoinRule) or several tables (MessageType::new / Deserialize / msgtype()) are covered by the
     # table-agreement rule of C18: each specified spelling maps to its dedicated variant on every path
     _C18.string_dispatch_rule(ctx, w, "C19.string-dispatch")
+    # VoipVersionId is the one string enum with a second wire kind (the integer 0): which values are written as an integer is decided by the variant,
+    # never by the spelling, or the custom string "0" changes kind on the way out (shared with C18)
+    _C18.wire_kind_rule(ctx, w, "C19.wire-kind")
     # the generated Any*Event deserializers classify the `type` string a second time (literal and wildcard-prefix arms): they agree with the event
     # type enums' own tables, so that a string the type enum keeps as custom is not claimed by a dedicated arm (shared with C18)
     _C18.dispatch_rule(ctx, w, "C19.dispatch")
